@@ -1732,10 +1732,14 @@ func makePointerArshaler(t reflect.Type) *arshaler {
 	init := func() {
 		valFncs = lookupArshaler(t.Elem())
 	}
+	chainsWithoutNesting := t.Elem().Kind() == reflect.Pointer || t.Elem().Kind() == reflect.Interface
 	fncs.marshal = func(enc *jsontext.Encoder, va addressableValue, mo *jsonopts.Struct) error {
 		// Check for cycles.
+		// A pointer to a pointer or to an interface can form a cycle
+		// (e.g., type P *P) that never increases the JSON nesting depth,
+		// so such pointers are always tracked.
 		xe := export.Encoder(enc)
-		if xe.Tokens.Depth() > startDetectingCyclesAfter {
+		if xe.Tokens.Depth() > startDetectingCyclesAfter || chainsWithoutNesting {
 			if err := visitPointer(&xe.SeenPointers, va.Value); err != nil {
 				return newMarshalErrorBefore(enc, t, err)
 			}
